@@ -117,6 +117,26 @@ theorem readFrom_spec (g : Nat → Nat → Nat) (hg : ∀ n c, n ≤ g n c) {h :
   rw [if_neg (by omega)]
   simp only [he1, he2, he3, ok_bind, pure_eq_ok, Buf.moveCtor_eq, Buf.deallocate, Buf.null]
 
+theorem readFromOpt_some_spec (g : Nat → Nat → Nat) (hg : ∀ n c, n ≤ g n c) {h : Heap} (hwf : HeapWf h) (size : Nat) (xs : List Int)
+    (hx : xs.length ≤ size) :
+    ∃ h' b', readFromOpt g h size (some xs) = .ok (h', some b') ∧ BOwns h' b' (xs, size - xs.length) ∧ Frame h none h' b'.base := by
+  obtain ⟨hoc, hfc⟩ := bctor_spec hwf 0
+  obtain ⟨h1, b1, h2, b2, he1, he2, he3, ho', hf⟩ := appendCore_spec g hg hfc.wf hoc size xs hx
+  refine ⟨h2, b2, ?_, by simpa using ho', Frame.trans hwf (fun b hb => by cases hb) hfc hf⟩
+  simp only [readFromOpt, appendFromOpt, he1, ok_bind]
+  rw [if_neg (by omega)]
+  simp only [he2, he3, ok_bind, pure_eq_ok, Buf.moveCtor_eq, Buf.deallocate, Buf.null]
+
+/-- a failing source: the temporary buffer (with its resized block) is destroyed, nothing is left behind -/
+theorem readFromOpt_none_spec (g : Nat → Nat → Nat) (hg : ∀ n c, n ≤ g n c) {h : Heap} (hwf : HeapWf h) (size : Nat) :
+    ∃ h', readFromOpt g h size none = .ok (h', none) ∧ Frame h none h' none := by
+  obtain ⟨hoc, hfc⟩ := bctor_spec hwf 0
+  obtain ⟨h1, b1, he1, ho1, hf1⟩ := resizeWriteArea_spec g hg hfc.wf hoc size
+  obtain ⟨h2, hd, hf2⟩ := destroy_spec hf1.wf ho1.1
+  have hfa := Frame.trans hwf (fun b hb => by cases hb) hfc hf1
+  refine ⟨h2, ?_, Frame.trans hwf (fun b hb => by cases hb) hfa hf2⟩
+  simp only [readFromOpt, appendFromOpt, he1, ok_bind, pure_eq_ok, Buf.deallocate_eq, hd]
+
 /-- a valid operation never faults, keeps the invariant and does what the specification says -/
 theorem step_spec (g : Nat → Nat → Nat) (hg : ∀ n c, n ≤ g n c) {st : St} {ss : SSt} (G : GInv st ss)
     (o : Op) (ss' : SSt) (ret : Option Nat) (hs : sstep ss o = some (ss', ret)) :
@@ -165,13 +185,9 @@ theorem step_spec (g : Nat → Nat → Nat) (hg : ∀ n c, n ≤ g n c) {st : St
     obtain ⟨rfl, rfl⟩ := hs
     exact ⟨_, by simp only [step, RV.swap_eq, pure_eq_ok], ginv_swap_vec G r s⟩
   | moveAssign r s =>
-    simp only [sstep] at hs
-    split at hs
-    · cases hs
-    · next hrs =>
-      simp only [Option.some.injEq, Prod.mk.injEq] at hs
-      obtain ⟨rfl, rfl⟩ := hs
-      exact ⟨_, by simp only [step, if_neg hrs, RV.swap_eq, pure_eq_ok], ginv_swap_vec G r s⟩
+    simp only [sstep, Option.some.injEq, Prod.mk.injEq] at hs
+    obtain ⟨rfl, rfl⟩ := hs
+    exact ⟨_, by simp only [step, RV.swap_eq, pure_eq_ok], ginv_swap_vec G r s⟩
   | bctor b n =>
     simp only [sstep, Option.some.injEq, Prod.mk.injEq] at hs
     obtain ⟨rfl, rfl⟩ := hs
@@ -190,6 +206,25 @@ theorem step_spec (g : Nat → Nat → Nat) (hg : ∀ n c, n ≤ g n c) {st : St
       exact ⟨_, by simp only [step, Buf.deallocate_eq, hd, he, ok_bind, pure_eq_ok],
         ginv_update_buf G b (Frame.trans hwf ((G.buf b).base_lt hwf) hf1 hf2) ho⟩
     · cases hs
+  | breadOpt b size xs =>
+    obtain ⟨h1, hd, hf1⟩ := destroy_spec hwf (G.buf b).1
+    cases xs with
+    | none =>
+      simp only [sstep, Option.some.injEq, Prod.mk.injEq] at hs
+      obtain ⟨rfl, rfl⟩ := hs
+      obtain ⟨h2, he, hf2⟩ := readFromOpt_none_spec g hg hf1.wf size
+      exact ⟨_, by simp only [step, Buf.deallocate_eq, hd, he, ok_bind, pure_eq_ok],
+        ginv_update_buf G b (b' := Buf.null) (Frame.trans hwf ((G.buf b).base_lt hwf) hf1 hf2) (BOwns.null h2)⟩
+    | some xs =>
+      simp only [sstep] at hs
+      split at hs
+      · next hx =>
+        simp only [Option.some.injEq, Prod.mk.injEq] at hs
+        obtain ⟨rfl, rfl⟩ := hs
+        obtain ⟨h2, b2, he, ho, hf2⟩ := readFromOpt_some_spec g hg hf1.wf size xs hx
+        exact ⟨_, by simp only [step, Buf.deallocate_eq, hd, he, ok_bind, pure_eq_ok],
+          ginv_update_buf G b (Frame.trans hwf ((G.buf b).base_lt hwf) hf1 hf2) ho⟩
+      · cases hs
   | b k bo =>
     simp only [sstep, Option.map_eq_some_iff, Prod.mk.injEq] at hs
     obtain ⟨⟨s', ret'⟩, hsv, rfl, rfl⟩ := hs
@@ -213,13 +248,9 @@ theorem step_spec (g : Nat → Nat → Nat) (hg : ∀ n c, n ≤ g n c) {st : St
     obtain ⟨rfl, rfl⟩ := hs
     exact ⟨_, by simp only [step, Buf.swap_eq, pure_eq_ok], ginv_swap_buf G b c⟩
   | bmoveAssign b c =>
-    simp only [sstep] at hs
-    split at hs
-    · cases hs
-    · next hbc =>
-      simp only [Option.some.injEq, Prod.mk.injEq] at hs
-      obtain ⟨rfl, rfl⟩ := hs
-      exact ⟨_, by simp only [step, if_neg hbc, Buf.swap_eq, pure_eq_ok], ginv_swap_buf G b c⟩
+    simp only [sstep, Option.some.injEq, Prod.mk.injEq] at hs
+    obtain ⟨rfl, rfl⟩ := hs
+    exact ⟨_, by simp only [step, Buf.swap_eq, pure_eq_ok], ginv_swap_buf G b c⟩
 
 theorem ginv_init : GInv St.init SSt.init := by
   refine ⟨⟨fun _ _ => rfl, ?_, ?_, ?_⟩, fun _ => Owns.null _, fun _ => BOwns.null _⟩
